@@ -10,7 +10,11 @@ history on one driver line.  Compared per operation: response code, Location-Pat
 Oracle: a reference dict-based resource directory written from RFC 9176 / the property text.  It
 is driven by the *response codes the implementation gave* (a write counts iff it was answered
 2.xx) and checked against unfiltered endpoint and resource lookups taken after every
-operation, so it needs no knowledge of which parameters the implementation accepts.
+operation, so it needs no knowledge of which parameters the implementation accepts -- with one
+exception: a small class of writes every RFC 9176 directory must accept (`certainly_valid`) has to
+be answered 2.01 / 2.04, so that a directory refusing too much is not blessed.  Lookup answers are
+read by `read_links`, written from the RFC 6690 grammar with strict parmnames: an answer it cannot
+read is an oracle failure (`snapshot:lookups-broken`).
 """
 import logging
 import re
@@ -31,7 +35,9 @@ RULE = ("Histories of register / re-register / POST update / PUT / DELETE / GET 
         "register, re-register, POST, PUT and failed writes; every refusal kind on a new key, an "
         "existing key, POST and PUT; every valueless option x every kind of write x every "
         "deadline that write could have produced, followed by a plain update and its deadline; "
-        "path reuse; default lt 90000), then random histories from env.rng whose time steps aim "
+        "path reuse; default lt 90000; the framing characters \" ; , < > space backslash and non-ASCII "
+        "(= in values) in registration parameter names, bases, link targets and anchors on register, "
+        "re-register, POST and PUT; a list of certainly valid RFC 9176 writes), then random histories from env.rng whose time steps aim "
         "at pending deadlines -1/0/+1 tick (valueless options, quoted values and bad bases are "
         "part of the ordinary stream); up to 15 % of the random histories come from a malformed "
         "stream (exotic lt spellings, odd bases, pagination, wildcards, proxy) that the model "
@@ -42,8 +48,15 @@ TRUSTED = ["harness/c20_vloop.py virtual clock (asyncio timers fired by moving t
            "the harness-side link-format reader used to canonicalise payloads"]
 ASSUMPTIONS = ["proxy mode, simple registration, page/count with a value, wildcard filters, explicit "
                "anchor attributes, bases other than scheme://authority (authority a name or a "
-               "bracketed IPv6 literal, or with an unpaired bracket: refused) and lt spellings other "
-               "than [+-]?[0-9]+ below 2^40 are out-of-model (judged by the oracle only)",
+               "bracketed IPv6 literal; with an unpaired bracket or a '>' anywhere: in the model, refused) "
+               "and lt spellings other than [+-]?[0-9]+ below 2^40 are out-of-model (judged by the oracle only)",
+               "the model sees query option names of any printable-ASCII shape (non-parmnames are refused on "
+               "writes) but link targets only as absolute paths [A-Za-z0-9/_-] and link attribute names only as "
+               "[A-Za-z0-9._-]+; non-ASCII names, other targets and anchors are judged by the oracle only; "
+               "names of link ATTRIBUTES with other characters (k\\y, non-ASCII: passed through to the resource "
+               "lookup by the directory) are not generated",
+               "which characters a link target may hold is not judged: the oracle's reader takes a target up to "
+               "the first '>' as every reader of the format does",
                "iteration order of the directory is not part of the property: lookup results are "
                "compared as sorted lists"]
 
